@@ -29,6 +29,34 @@ def rbytes(rng, n, nul_ok=True):
     return ''.join(out) or '.'
 
 
+import struct
+
+# doubles / floats whose %g renderings have every length from 1 to 13 characters (the longest possible: sign, six
+# significant digits, three-digit exponent); the expected text is the C library's %g (Python's % operator formats
+# doubles identically; NaN is avoided because its sign is printed differently)
+G_DOUBLES = [0.0, 5.0, -3.0, 12.5, -0.25, 1234.5, 1e6, -1e6, 123456.0, 1234567.0, -1234567.0, 1.5e-5, -1.25e-7,
+             1.23456789e100, -1.23456789e100, -1.23456789e-100, 1.7976931348623157e308, -1.7976931348623157e308,
+             2.2250738585072014e-308, -2.2250738585072014e-308, 5e-324, -5e-324, float('inf'), float('-inf'), -0.0]
+
+
+def g_double(v):
+    return '0x%016x' % struct.unpack('<Q', struct.pack('<d', v))[0], ('%g' % v).encode().hex()
+
+
+def g_float(v):
+    f = struct.unpack('<f', struct.pack('<f', v))[0]
+    return '0x%08x' % struct.unpack('<I', struct.pack('<f', v))[0], ('%g' % f).encode().hex()
+
+
+def float_op(rng, o):
+    v = rng.choice(G_DOUBLES)
+    if rng.random() < 0.3 and abs(v) < 3e38:
+        b, t = g_float(v)
+        return 'shlf,%d,%s,M=%s' % (o, b, t), len(t) // 2
+    b, t = g_double(v)
+    return 'shld,%d,%s,M=%s' % (o, b, t), len(t) // 2
+
+
 def gen_history(rng, stk, pool=3, nops=12):
     live, size = set(), {}
     ops = []
@@ -51,7 +79,7 @@ def gen_history(rng, stk, pool=3, nops=12):
             if live:
                 ch += ['move'] * 3
         if live:
-            ch += ['app'] * 8 + ['appc'] * 3 + ['shl'] * 2 + ['shlc', 'trunc', 'trunc', 'erase', 'erase', 'masg', 'masg', 'masg', 'del', 'tostr', 'tostr', 'wide']
+            ch += ['app'] * 8 + ['appc'] * 3 + ['shl'] * 2 + ['flt'] * 2 + ['shlc', 'trunc', 'trunc', 'erase', 'erase', 'masg', 'masg', 'masg', 'del', 'tostr', 'tostr', 'wide']
         op = rng.choice(ch)
         if op == 'new':
             o = rng.choice(dead); ops.append('new,%d' % o); live.add(o); size[o] = 0
@@ -81,6 +109,8 @@ def gen_history(rng, stk, pool=3, nops=12):
                             max(rngs[0], -1), 10, 99, 100, 999999999, 1000000000])
             v = min(max(v, rngs[0]), rngs[1])
             ops.append('shl,%d,%s,%d' % (o, ty, v)); size[o] += len(str(v))
+        elif op == 'flt':
+            o = rng.choice(sorted(live)); t, n = float_op(rng, o); ops.append(t); size[o] += n
         elif op == 'trunc':
             o = rng.choice(sorted(live)); n = rng.choice([0, 1, size[o] // 2, max(size[o] - 1, 0), size[o], size[o] + 1, 255, 256])
             ops.append('trunc,%d,%d' % (o, n)); size[o] = min(size[o], n)
@@ -126,6 +156,17 @@ def directed(stk):
         out.append(base + ['app,0,c3a9'] + tost + ['app,0,e282'] + tost + ['trunc,0,%d' % (fill + 1)] + tost + ['del,0'])
         out.append(base + ['shl16s,0,00e9d83dde00,M=c3a9f09f9880', 'shl32s,0,0001f600000020ac,M=f09f9880e282ac', 'shlw,0,00000041,M=41']
                    + tost + ['app,0,ff'] + tost + ['del,0'])
+    # floating-point insertion with every remaining capacity 0..16 below each boundary, for renderings of every length
+    for cap in (stk, 2 * stk, 4 * stk):
+        for rem in range(0, 17):
+            ops = ['new,0', 'appc,0,97,%d' % (cap - rem)]
+            for v in (-1.23456789e100, 5.0, -2.2250738585072014e-308, 1234.5):
+                b, t = g_double(v)
+                ops.append('shld,0,%s,M=%s' % (b, t))
+                ops.append('trunc,0,%d' % (cap - rem))
+            b, t = g_float(-1.17549435e-38)
+            ops += ['shlf,0,%s,M=%s' % (b, t), 'tostr,0,u,cv', 'del,0']
+            out.append(ops)
     return out
 
 
@@ -143,8 +184,8 @@ class C16(vlib.Check):
             'non-trivial = history with >= 3 operations; distinct = distinct case line')
     modelled_not_verified = ('operator new[]/delete[]', 'std::char_traits copy/move/assign',
                              'size_t overflow of m_size + added_size (appends near 2^64 bytes) is outside the model',
-                             'operator<< for float/double and for UTF-16/32/wchar text are the subject of C13 / C01 and are not '
-                             'part of this model; integer insertion uses Num/Digits.uint_format')
+                             'operator<< for float/double: the %g text is the C library\'s (an oracle supplied with the case, C13\'s subject); the '
+                             'model is append(text); integer insertion uses Num/Digits.uint_format')
 
     def gen(self, rng, tier):
         stk = consts()['stack_string_size']
